@@ -1558,6 +1558,37 @@ class Interp:
             if o is None:
                 self.obligations[k] = o = {"visits": 0, "failed": 0, "detail": None, "fn": fr.fn["path"]}
             o["visits"] += 1
+        if self.opts.get("loop_once"):
+            # analysis of ONE arbitrary iteration of every loop: on first arrival at a loop head everything the loop body may assign is
+            # forgotten (so the state stands for the head of any iteration), on the second arrival the path ends
+            heads = fr.fn.get("_loop_heads")
+            if heads is None:
+                cfg = cfg_of(fr.fn)
+                heads = {}
+                for tail, head in cfg.back_edges():
+                    heads.setdefault(head, set()).update(cfg.natural_loop(tail, head))
+                fr.fn["_loop_heads"] = heads
+            if b in heads:
+                if n >= 2:
+                    st.status = "covered"
+                    return
+                assigned = set()
+                for bi in heads[b]:
+                    bb = fr.fn["blocks"][bi]
+                    for s_ in bb["stmts"]:
+                        if "assign" in s_:
+                            assigned.add(s_["assign"][0]["local"])
+                            rv = s_["assign"][1]
+                            if isinstance(rv, dict):
+                                for k in ("ref", "addr_of"):
+                                    if k in rv and rv[k].get("mut", True):
+                                        assigned.add(rv[k]["place"]["local"])
+                    t_ = bb["term"] or {}
+                    if "call" in t_:
+                        assigned.add(t_["call"]["dest"]["local"])
+                for l_ in assigned:
+                    if 0 < l_ < len(fr.locals) and l_ > fr.fn.get("arg_count", 0) and fr.locals[l_] is not None:
+                        fr.locals[l_] = top_of(fr.fn["locals"][l_]["ty"])
         if n >= 2 and self.opts.get("loop_subsume"):
             # path-sensitive exploration with subsumption: a path that comes back to a block in a state (frames, reachable heap, path
             # condition) in which the block was already entered continues exactly as that earlier visit did - nothing new to explore
